@@ -345,6 +345,24 @@ class CFG:
         ds.sort(key=lambda x: len(self.dominators(x.id)))
         return [(d.ast, d.pol) for d in ds]
 
+    def guard_nodes(self, n: int) -> List['Node']:
+        ds = [self.nodes[d] for d in self.dominators(n) if self.nodes[d].kind == 'branch' and d != n]
+        ds.sort(key=lambda x: len(self.dominators(x.id)))
+        return ds
+
+    def between(self, a: int, b: int) -> Set[int]:
+        """nodes lying on some path a ->* b that does not revisit a (a guard at `a` is re-established whenever a is
+        passed again, so only the last stretch matters)"""
+        fwd = set()
+        for m, _ in self.succ[a]:
+            if m != a:
+                fwd |= self.reachable(m, avoid={a})
+        bwd = set()
+        for m, _ in self.pred[b]:
+            if m != a:
+                bwd |= self.reachable(m, avoid={a}, forward=False)
+        return (fwd & bwd) - {a}
+
     def returns(self) -> List[int]:
         live = self.live()
         return [n.id for n in self.nodes if n.kind in ('return', 'implicit-return') and n.id in live]
